@@ -2,6 +2,8 @@
 
   (id identify <graph> (x…) (y…) <tape>)            -> (ok <expr>) | (err …)
   (id identify_outcomes <graph> (x…) (y…) <tape>)   -> (ok none) | (ok (some <expr>)) | (err …)
+  (id idc <graph> (x…) (y…) (z…) <tape>)             -> (ok <expr>) | (err …)       z in the order the real run tried them
+  (id identify_outcomes_c <graph> (x…) (y…) (z…) <tape>)
 
   <tape> = (((node…) (order…)) …): the topological orders the real run obtained from networkx, keyed by the
   node set of the graph that was sorted (`Identification` rebuilds its graph from a *set* of nodes, so the
@@ -10,6 +12,8 @@
 import Y0.Model.Graph
 import Y0.Model.Expr
 import Y0.Model.Id
+import Y0.Model.Idc
+import Y0.Model.Sep
 import Y0.Driver.Graph
 
 namespace Y0.Driver
@@ -38,6 +42,14 @@ def handleId (op : String) (args : List Sexp) : Option Sexp := do
   | "identify_outcomes", [g, x, y, t] =>
       pure (exceptToSexp optExprToSexp
         (identifyOutcomes (topoFromTape (← parseTape t)) (← parseGraph g) (dedup' (← asNats? x)) (dedup' (← asNats? y))))
+  | "idc", [g, x, y, z, t] =>
+      pure (exceptToSexp Codec.exprToSexp
+        (idc (fun G a b C => G.dSeparated a b C) (topoFromTape (← parseTape t)) (← parseGraph g)
+          (dedup' (← asNats? x)) (dedup' (← asNats? y)) (dedup' (← asNats? z))))
+  | "identify_outcomes_c", [g, x, y, z, t] =>
+      pure (exceptToSexp optExprToSexp
+        (identifyOutcomesC (fun G a b C => G.dSeparated a b C) (topoFromTape (← parseTape t)) (← parseGraph g)
+          (dedup' (← asNats? x)) (dedup' (← asNats? y)) (dedup' (← asNats? z))))
   | _, _ => none
 
 end Y0.Driver
